@@ -143,6 +143,78 @@ type seqStats struct {
 	failPos                                                         map[string]bool
 	non2xxContinue                                                  bool
 	gapsChecked, waitsChecked                                       int
+	ammoChecked, ammoPauseDiffers, ammoArgDiffers                   bool
+}
+
+// checkAmmo compares the scenario the provider handed to the gun for one invocation
+// with the documented expansion of the request list: the same steps in the same
+// order, each followed by exactly the pause its own occurrence states (name(n, ms)
+// after every repetition, sleep(ms) once after the step before it), and the stated
+// min_waiting_time. It needs no clock: a pause that is longer than stated (e.g. one
+// occurrence's pause showing up after another occurrence of the same request) is as
+// wrong as one that is shorter.
+func checkAmmo(a ammoRec, sc *si.Scenario, steps []si.ExpStep) string {
+	if a.Name != sc.Name {
+		return fmt.Sprintf("it is scenario %q", a.Name)
+	}
+	var got, want []string
+	same := len(a.Steps) == len(steps)
+	for _, x := range a.Steps {
+		got = append(got, fmt.Sprintf("%s+%v", x.Name, x.Sleep))
+	}
+	for i, x := range steps {
+		d := time.Duration(x.SleepMs) * time.Millisecond
+		want = append(want, fmt.Sprintf("%s+%v", x.Name, d))
+		same = same && a.Steps[i].Name == x.Name && a.Steps[i].Sleep == d
+	}
+	if !same {
+		return fmt.Sprintf("its steps (request+pause after it) are %v, the request list %v expands to %v", got, scengen.Scenario{Steps: sc.Steps}.StepStrings(), want)
+	}
+	mw := time.Duration(0)
+	if sc.MinWait != nil {
+		mw = time.Duration(*sc.MinWait) * time.Millisecond
+	}
+	if a.MinWait != mw {
+		return fmt.Sprintf("its min_waiting_time is %v, stated %v", a.MinWait, mw)
+	}
+	return ""
+}
+
+// pausesDifferPerOccurrence: some request is listed several times in the scenario
+// and the pauses after its executed occurrences are not all the same (whether by
+// name(n, ms) or by a sleep(ms) item).
+func pausesDifferPerOccurrence(steps []si.ExpStep) bool {
+	first := map[string]int{}
+	for _, x := range steps {
+		if ms, ok := first[x.Name]; ok && ms != x.SleepMs {
+			return true
+		} else if !ok {
+			first[x.Name] = x.SleepMs
+		}
+	}
+	return false
+}
+
+// pauseArgDiffers: an item name(n, ms) is followed, later in the same list, by an
+// item of the same request with another pause argument or none.
+func pauseArgDiffers(items []scengen.Step) bool {
+	arg := map[string][]int{}
+	for _, x := range items {
+		if x.Sleep {
+			continue
+		}
+		ms := 0
+		if x.Ms != nil {
+			ms = *x.Ms
+		}
+		for _, earlier := range arg[x.Name] {
+			if earlier > 0 && earlier != ms {
+				return true
+			}
+		}
+		arg[x.Name] = append(arg[x.Name], ms)
+	}
+	return false
 }
 
 // checkSeq: one instance, requests strictly sequential; the interpreter is replayed
@@ -155,7 +227,7 @@ func checkSeq(c Case, o *vf.Obs) error {
 		if def == nil {
 			return target.Resp{Status: 599, Body: []byte("request of no known definition")}
 		}
-		return toResp(c.reply(def, seq))
+		return toResp(c.reply(def, seq), c.faultAt(seq).Keep)
 	}
 	res, err := runProgram(prog, shots, 1, c.KeepAlive, script)
 	if err != nil {
@@ -193,6 +265,18 @@ func checkSeq(c Case, o *vf.Obs) error {
 		sc := prog.Scenario(scn)
 		in := it.Begin(scn)
 		invBase := lastAt
+		// one instance: the inv-th Acquire is the ammo of the inv-th invocation
+		if inv >= len(res.Ammo) {
+			return fail("invocation %d (scenario %s) reached the target but the provider handed out only %d ammo", inv, scn, len(res.Ammo))
+		}
+		if a := res.Ammo[inv]; a.Known {
+			if d := checkAmmo(a, sc, in.Steps()); d != "" {
+				return fail("invocation %d runs scenario %s (by its first request at the target), but in the ammo the provider handed to the gun for it %s", inv, scn, d)
+			}
+			st.ammoChecked = true
+			st.ammoPauseDiffers = st.ammoPauseDiffers || pausesDifferPerOccurrence(in.Steps())
+			st.ammoArgDiffers = st.ammoArgDiffers || pauseArgDiffers(sc.Steps)
+		}
 		for s := in.Step(); s != nil; s = in.Step() {
 			where := fmt.Sprintf("invocation %d (scenario %s) step %d (%s)", inv, scn, s.Index, s.Def.Name)
 			for _, u := range s.Next {
@@ -268,6 +352,21 @@ func checkSeq(c Case, o *vf.Obs) error {
 					return fail("%s fails (%s: %s) but its sample #%d is not marked failed: %s", where, out.Kind, out.Msg, sx-1, sm)
 				}
 				st.fails[out.Kind] = true
+				if out.Kind == "transport" {
+					bare := len(s.Def.Posts) == 0
+					if rep.Cut {
+						st.fails["transport_body_cut"] = true
+					}
+					if bare {
+						st.fails["transport_step_without_postprocessors"] = true
+					}
+					if rep.Cut && bare {
+						st.fails["body_cut_step_without_postprocessors"] = true
+					}
+					if pos != "last" {
+						st.fails["transport_before_last_step"] = true
+					}
+				}
 				st.failPos[pos] = true
 				continue // Step() returns nil now
 			}
@@ -357,6 +456,9 @@ func checkSeq(c Case, o *vf.Obs) error {
 	o.ClassIf(st.multSleep, "multiplicity_with_sleep")
 	o.ClassIf(st.sleepItem, "sleep_item")
 	o.ClassIf(st.gapsChecked > 0, "pause_checked")
+	o.ClassIf(st.ammoChecked, "ammo_pauses_checked")
+	o.ClassIf(st.ammoPauseDiffers, "same_request_listed_with_differing_pauses")
+	o.ClassIf(st.ammoArgDiffers, "repeated_request_pause_argument_differs")
 	o.ClassIf(st.waitsChecked > 0, "min_waiting_time_checked")
 	o.ClassIf(st.nextUsed, "next_used")
 	o.ClassIf(st.nextWrapped, "next_wrapped")
@@ -409,7 +511,7 @@ func checkConcurrent(c Case, o *vf.Obs) error {
 			return target.Resp{Status: 599, Body: []byte("request of no known definition")}
 		}
 		fresh, num := freshOf(recKey(def, r))
-		return toResp(si.MakeReply(def, fresh+c.Salt, num, si.FaultNone, 0))
+		return toResp(si.MakeReply(def, fresh+c.Salt, num, si.FaultNone, 0), 0)
 	}
 	res, err := runProgram(prog, shots, c.Instances, c.KeepAlive, script)
 	if err != nil {
